@@ -1,1 +1,429 @@
 // Kani contract harnesses for /repo/parquet-variant/src/decoder.rs (child module: sees private items via super::)
+use super::*;
+#[path = "/verif/kani/support/spec.rs"]
+mod spec;
+use spec::*;
+
+// ---------------------------------------------------------------------------------------------
+// C08: every primitive decoder of the Variant binary format on ARBITRARY bytes (fixed 20-byte array,
+// symbolic length n <= 20, so every "too short" and "longer than needed" case is included).
+// Contract shape: never panics; Ok(v) => v is the little-endian value of the declared width at the
+// declared offset and any returned slice is a sub-slice of the input (same memory); Err exactly when
+// the input is too short.
+// Stubs (listed per harness): alloc::fmt::format (error text), and for the string decoders
+// simdutf8::{basic,compat}::from_utf8 — runtime CPU dispatch (inline asm) is unsupported by Kani; they are
+// replaced by a validator that answers NONDETERMINISTICALLY (nothing is assumed about which byte
+// strings are UTF-8; validation itself is a trusted dependency).
+// ---------------------------------------------------------------------------------------------
+
+fn any_input<const N: usize>() -> ([u8; N], usize) {
+    let a: [u8; N] = kani::any();
+    let n: usize = kani::any();
+    kani::assume(n <= N);
+    (a, n)
+}
+
+/// little-endian value of `w` bytes (w <= 16) at `at`, zero-extended, checked bit by bit by the caller
+fn le_bit(buf: &[u8], at: usize, j: usize) -> bool {
+    bit(buf, at * 8 + j)
+}
+
+fn stub_basic_from_utf8(input: &[u8]) -> Result<&str, simdutf8::basic::Utf8Error> {
+    if kani::any() {
+        // SAFETY (harness only): nobody decodes characters of this &str in the code under contract
+        Ok(unsafe { core::str::from_utf8_unchecked(input) })
+    } else {
+        Err(simdutf8::basic::Utf8Error {})
+    }
+}
+fn stub_compat_from_utf8(_input: &[u8]) -> Result<&str, simdutf8::compat::Utf8Error> {
+    // only reached on the error path, where the code calls `.unwrap_err()` and formats the error
+    Err(unsafe { core::mem::zeroed::<simdutf8::compat::Utf8Error>() })
+}
+
+// Contract (C08): get_basic_type(h) is the 2-bit field h & 3 (0 Primitive, 1 ShortString, 2 Object, 3 Array)
+// for all 256 headers — the `unreachable!` arm is unreachable. get_primitive_type(h) is Ok(t) with t's
+// discriminant = h >> 2 exactly when h >> 2 <= 20 (the 21 types of the specification), otherwise Err.
+// OffsetSizeBytes::try_new(x) is Ok(width x + 1) exactly when x <= 3.
+// Stub: alloc::fmt::format.
+// @unit name=variant_header_fields props=C08 kind=complete fns=get_basic_type,get_primitive_type,VariantPrimitiveType::try_from,OffsetSizeBytes::try_new
+#[kani::proof]
+#[kani::stub(alloc::fmt::format, stub_format)]
+fn variant_header_fields() {
+    let h: u8 = kani::any();
+    assert!(get_basic_type(h) as u8 == h % 4);
+    let p = get_primitive_type(h);
+    assert!(p.is_ok() == (h / 4 <= 20));
+    if let Ok(t) = &p {
+        assert!(*t as u8 == h / 4);
+    }
+    let o = OffsetSizeBytes::try_new(h);
+    assert!(o.is_ok() == (h <= 3));
+    if let Ok(s) = &o {
+        assert!(*s as u8 == h + 1);
+    }
+    kani::cover!(h == 0x50 && p.is_ok()); // Uuid
+    kani::cover!(h / 4 == 21);
+    kani::cover!(h == 3);
+    std::mem::forget(p);
+    std::mem::forget(o);
+}
+
+// Contract (C08): unpack_u32_at_offset(bytes, byte_offset, index) for every width 1..=4, ARBITRARY
+// usize offset and index: with start = byte_offset + index*width computed exactly (128-bit on the spec
+// side), the result is Ok(v) exactly when start + width <= bytes.len() — in particular Err, not a wrap-around
+// or panic, when the arithmetic overflows usize — and v is then the little-endian unsigned value of the
+// `width` bytes at `start`, zero-extended to 32 bits. unpack_u32(bytes, i) is the same with byte_offset 0.
+// Stub: alloc::fmt::format.
+fn unpack_u32_contract<const N: usize>() {
+    let (a, n) = any_input::<N>();
+    let w: u8 = kani::any();
+    kani::assume(w <= 3);
+    let sz = match OffsetSizeBytes::try_new(w) {
+        Ok(s) => s,
+        Err(_) => {
+            assert!(false);
+            return;
+        }
+    };
+    let width = w as u128 + 1;
+    let off: usize = kani::any();
+    let idx: usize = kani::any();
+    let plain: bool = kani::any();
+    let r = if plain {
+        kani::assume(off == 0);
+        sz.unpack_u32(&a[..n], idx)
+    } else {
+        sz.unpack_u32_at_offset(&a[..n], off, idx)
+    };
+    let start = off as u128 + idx as u128 * width;
+    let fits = start + width <= n as u128;
+    assert!(r.is_ok() == fits);
+    if let Ok(v) = &r {
+        let j: usize = kani::any();
+        kani::assume(j < 32);
+        assert!(((*v >> j) & 1 == 1) == (j < 8 * width as usize && le_bit(&a, start as usize, j)));
+    }
+    kani::cover!(r.is_ok() && w == 2 && off == 1 && idx == 5);
+    kani::cover!(r.is_ok() && w == 3 && start as usize + 4 == n && n == N);
+    kani::cover!(r.is_err() && idx == usize::MAX);
+    kani::cover!(r.is_err() && off == usize::MAX && idx == 1);
+    kani::cover!(r.is_err() && start + width == n as u128 + 1);
+    kani::cover!(plain && r.is_ok() && idx == 3);
+    std::mem::forget(r);
+}
+
+// @unit name=variant_unpack_u32_12 props=C08 kind=bounded bound=bytes<=12 fns=OffsetSizeBytes::unpack_u32_at_offset,OffsetSizeBytes::unpack_u32,array_from_slice,slice_from_slice_at_offset tier=quick timeout=480 mem=3
+#[kani::proof]
+#[kani::unwind(6)]
+#[kani::stub(alloc::fmt::format, stub_format)]
+fn variant_unpack_u32_12() {
+    unpack_u32_contract::<12>()
+}
+// @unit name=variant_unpack_u32_20 props=C08 kind=bounded bound=bytes<=20 fns=OffsetSizeBytes::unpack_u32_at_offset,OffsetSizeBytes::unpack_u32,array_from_slice,slice_from_slice_at_offset tier=thorough timeout=900 mem=4
+#[kani::proof]
+#[kani::unwind(6)]
+#[kani::stub(alloc::fmt::format, stub_format)]
+fn variant_unpack_u32_20() {
+    unpack_u32_contract::<20>()
+}
+
+// Contract (C08): map_bytes_to_offsets(buffer, width) yields exactly floor(len / width) values, the i-th
+// being the little-endian unsigned value of bytes [i*width, (i+1)*width) — trailing bytes that do not
+// fill a value are ignored; never panics.
+// @unit name=variant_map_bytes_to_offsets props=C08 kind=bounded bound=buffer<=12_bytes fns=map_bytes_to_offsets tier=quick timeout=480 mem=3
+#[kani::proof]
+#[kani::unwind(14)]
+#[kani::stub(alloc::fmt::format, stub_format)]
+fn variant_map_bytes_to_offsets() {
+    let (a, n) = any_input::<12>();
+    let w: u8 = kani::any();
+    kani::assume(w <= 3);
+    let sz = match OffsetSizeBytes::try_new(w) {
+        Ok(s) => s,
+        Err(_) => return,
+    };
+    let width = w as usize + 1;
+    let mut it = map_bytes_to_offsets(&a[..n], sz);
+    let mut i = 0usize;
+    let j: usize = kani::any();
+    kani::assume(j < 64);
+    while let Some(v) = it.next() {
+        assert!((i + 1) * width <= n);
+        assert!(((v >> j) & 1 == 1) == (j < 8 * width && le_bit(&a, i * width, j)));
+        i += 1;
+    }
+    assert!(i * width <= n && (i + 1) * width > n);
+    kani::cover!(i == 12);
+    kani::cover!(i == 2 && width == 4 && n == 11);
+    kani::cover!(i == 0 && n == 2);
+}
+
+// Contract (C08): the fixed-width scalar decoders. decode_intN / decode_float / decode_double return
+// Ok(v) exactly when at least W bytes are present, v being the little-endian value of the first W bytes
+// (two's complement for integers, IEEE bit pattern for floats; extra bytes ignored); decode_decimalN
+// need 1 + W bytes: scale = byte 0, unscaled integer = little-endian bytes 1..=W. Err (never a panic)
+// on shorter input.
+macro_rules! fixed_decoder {
+    ($name:ident, $f:ident, $w:expr, |$v:ident| $bits:expr) => {
+        #[kani::proof]
+        #[kani::unwind(6)]
+        #[kani::stub(alloc::fmt::format, stub_format)]
+        fn $name() {
+            let (a, n) = any_input::<20>();
+            let r = $f(&a[..n]);
+            assert!(r.is_ok() == (n >= $w));
+            if let Ok($v) = &r {
+                let image: u128 = $bits;
+                let j: usize = kani::any();
+                kani::assume(j < 128);
+                assert!(((image >> j) & 1 == 1) == (j < 8 * $w && bit(&a, j)));
+            }
+            kani::cover!(r.is_ok() && n == $w);
+            kani::cover!(r.is_ok() && n == 20);
+            kani::cover!(r.is_err() && n + 1 == $w);
+            std::mem::forget(r);
+        }
+    };
+}
+// @unit name=variant_decode_int8 props=C08 kind=complete fns=decode_int8
+fixed_decoder!(variant_decode_int8, decode_int8, 1, |v| *v as u8 as u128);
+// @unit name=variant_decode_int16 props=C08 kind=complete fns=decode_int16
+fixed_decoder!(variant_decode_int16, decode_int16, 2, |v| *v as u16 as u128);
+// @unit name=variant_decode_int32 props=C08 kind=complete fns=decode_int32
+fixed_decoder!(variant_decode_int32, decode_int32, 4, |v| *v as u32 as u128);
+// @unit name=variant_decode_int64 props=C08 kind=complete fns=decode_int64
+fixed_decoder!(variant_decode_int64, decode_int64, 8, |v| *v as u64 as u128);
+// @unit name=variant_decode_float props=C08 kind=complete fns=decode_float
+fixed_decoder!(variant_decode_float, decode_float, 4, |v| v.to_bits() as u128);
+// @unit name=variant_decode_double props=C08 kind=complete fns=decode_double
+fixed_decoder!(variant_decode_double, decode_double, 8, |v| v.to_bits() as u128);
+// (scale, integer) packed as the spec lays them out: byte 0 = scale, bytes 1.. = integer
+// @unit name=variant_decode_decimal4 props=C08 kind=complete fns=decode_decimal4
+fixed_decoder!(variant_decode_decimal4, decode_decimal4, 5, |v| (v.1 as u128) | ((v.0 as u32 as u128) << 8));
+// @unit name=variant_decode_decimal8 props=C08 kind=complete fns=decode_decimal8
+fixed_decoder!(variant_decode_decimal8, decode_decimal8, 9, |v| (v.1 as u128) | ((v.0 as u64 as u128) << 8));
+
+// decimal16 is 17 bytes = 136 bits: checked in two parts
+// @unit name=variant_decode_decimal16 props=C08 kind=complete fns=decode_decimal16
+#[kani::proof]
+#[kani::unwind(6)]
+#[kani::stub(alloc::fmt::format, stub_format)]
+fn variant_decode_decimal16() {
+    let (a, n) = any_input::<20>();
+    let r = decode_decimal16(&a[..n]);
+    assert!(r.is_ok() == (n >= 17));
+    if let Ok((int, scale)) = &r {
+        assert!(*scale == a[0]);
+        let j: usize = kani::any();
+        kani::assume(j < 128);
+        assert!(((*int as u128 >> j) & 1 == 1) == bit(&a, 8 + j));
+    }
+    kani::cover!(r.is_ok() && n == 17);
+    kani::cover!(r.is_err() && n == 16);
+    kani::cover!(matches!(r, Ok((x, _)) if x < 0));
+    std::mem::forget(r);
+}
+
+// Contract (C08) — EXPECTED TO FAIL ON THE UNCHANGED TREE (finding F3). decode_uuid on arbitrary bytes:
+// Ok(u) exactly when at least 16 bytes are present, u being those 16 bytes (big-endian UUID field order as
+// the specification says); Err — never a panic — on shorter input, like every sibling decoder.
+// Failing obligation on the unchanged code: slice index `data[0..16]` out of range (decoder.rs:341) for
+// every input shorter than 16 bytes; reachable from Variant::try_new (see REPORT).
+// Stub: alloc::fmt::format.
+// @unit name=decode_uuid_total props=C08 kind=complete fns=decode_uuid
+#[kani::proof]
+#[kani::unwind(18)]
+#[kani::stub(alloc::fmt::format, stub_format)]
+fn decode_uuid_total() {
+    let (a, n) = any_input::<20>();
+    let r = decode_uuid(&a[..n]);
+    assert!(r.is_ok() == (n >= 16));
+    if let Ok(u) = &r {
+        let i: usize = kani::any();
+        kani::assume(i < 16);
+        assert!(u.as_bytes()[i] == a[i]);
+    }
+    kani::cover!(r.is_ok() && n == 16);
+    kani::cover!(r.is_ok() && n == 20);
+    std::mem::forget(r);
+}
+
+// Contract (C08): the same decoder under its implicit precondition n >= 16 (passes on the unchanged tree):
+// always Ok, bytes preserved in order.
+// @unit name=variant_decode_uuid_ge16 props=C08 kind=complete fns=decode_uuid
+#[kani::proof]
+#[kani::unwind(18)]
+#[kani::stub(alloc::fmt::format, stub_format)]
+fn variant_decode_uuid_ge16() {
+    let (a, n) = any_input::<20>();
+    kani::assume(n >= 16);
+    let r = decode_uuid(&a[..n]);
+    assert!(r.is_ok());
+    if let Ok(u) = &r {
+        let i: usize = kani::any();
+        kani::assume(i < 16);
+        assert!(u.as_bytes()[i] == a[i]);
+    }
+    kani::cover!(n == 16);
+    std::mem::forget(r);
+}
+
+// Contract (C08): decode_binary: the first 4 bytes are a little-endian u32 length L; Ok(s) exactly when
+// 4 + L <= n (no wrap-around for huge L), and s is then the sub-slice input[4 .. 4+L] itself (same
+// memory); Err on shorter input.
+// Stub: alloc::fmt::format.
+// @unit name=variant_decode_binary props=C08 kind=bounded bound=input<=20_bytes fns=decode_binary,slice_from_slice_at_offset,slice_from_slice tier=quick timeout=480 mem=3
+#[kani::proof]
+#[kani::unwind(6)]
+#[kani::stub(alloc::fmt::format, stub_format)]
+fn variant_decode_binary() {
+    let (a, n) = any_input::<20>();
+    let r = decode_binary(&a[..n]);
+    let l = (a[0] as u64) | (a[1] as u64) << 8 | (a[2] as u64) << 16 | (a[3] as u64) << 24;
+    let fits = n >= 4 && 4 + l <= n as u64;
+    assert!(r.is_ok() == fits);
+    if let Ok(s) = &r {
+        assert!(s.len() as u64 == l && s.as_ptr() == a[4..].as_ptr());
+    }
+    kani::cover!(r.is_ok() && l == 16);
+    kani::cover!(r.is_ok() && l == 0 && n == 4);
+    kani::cover!(r.is_err() && n >= 4 && l == u32::MAX as u64);
+    kani::cover!(r.is_err() && n == 3);
+    std::mem::forget(r);
+}
+
+// Contract (C08): decode_long_string: as decode_binary, plus the bytes must pass the UTF-8 validator;
+// Ok(s) => s is input[4 .. 4+L] (same memory); out-of-bounds length => Err regardless of the validator.
+// decode_short_string(header, data): L = header >> 2 (0..=63); Ok(s) => L <= n and s is input[0..L];
+// L > n => Err. Never a panic.
+// Stubs: alloc::fmt::format; simdutf8::basic::from_utf8 and simdutf8::compat::from_utf8 by a
+// nondeterministic validator (see file header).
+// @unit name=variant_decode_strings props=C08 kind=bounded bound=input<=20_bytes fns=decode_long_string,decode_short_string,string_from_slice,ShortString::try_new tier=quick timeout=480 mem=3
+#[kani::proof]
+#[kani::unwind(6)]
+#[kani::stub(alloc::fmt::format, stub_format)]
+#[kani::stub(simdutf8::basic::from_utf8, stub_basic_from_utf8)]
+#[kani::stub(simdutf8::compat::from_utf8, stub_compat_from_utf8)]
+fn variant_decode_strings() {
+    let (a, n) = any_input::<20>();
+    if kani::any() {
+        let r = decode_long_string(&a[..n]);
+        let l = (a[0] as u64) | (a[1] as u64) << 8 | (a[2] as u64) << 16 | (a[3] as u64) << 24;
+        let fits = n >= 4 && 4 + l <= n as u64;
+        if let Ok(s) = &r {
+            assert!(fits);
+            assert!(s.len() as u64 == l && s.as_ptr() == a[4..].as_ptr());
+        }
+        assert!(fits || r.is_err());
+        kani::cover!(r.is_ok() && l == 16);
+        kani::cover!(r.is_err() && fits); // validator said no
+        kani::cover!(r.is_err() && !fits && n >= 4);
+        std::mem::forget(r);
+    } else {
+        let h: u8 = kani::any();
+        let r = decode_short_string(h, &a[..n]);
+        let l = (h / 4) as usize;
+        if let Ok(s) = &r {
+            assert!(l <= n);
+            assert!(s.as_str().len() == l && s.as_str().as_ptr() == a.as_ptr());
+        }
+        assert!(l <= n || r.is_err());
+        kani::cover!(r.is_ok() && l == 20);
+        kani::cover!(r.is_ok() && l == 0);
+        kani::cover!(r.is_err() && l == 63);
+        std::mem::forget(r);
+    }
+}
+
+// Contract (C08): decode_time_ntz: 8-byte little-endian unsigned microseconds since midnight; Ok exactly
+// when 8 bytes are present and the value is < 86_400_000_000 (one day); the NaiveTime then has exactly
+// that many microseconds since midnight (seconds*10^9 + nanos = micros*10^3). Never panics.
+// Stub: alloc::fmt::format.
+// @unit name=variant_decode_time_ntz props=C08 kind=complete fns=decode_time_ntz tier=thorough timeout=900 mem=6
+#[kani::proof]
+#[kani::unwind(6)]
+#[kani::stub(alloc::fmt::format, stub_format)]
+fn variant_decode_time_ntz() {
+    use chrono::Timelike;
+    let (a, n) = any_input::<10>();
+    let r = decode_time_ntz(&a[..n]);
+    let us = u64::from_le_bytes([a[0], a[1], a[2], a[3], a[4], a[5], a[6], a[7]]);
+    assert!(r.is_ok() == (n >= 8 && us < 86_400_000_000));
+    if let Ok(t) = &r {
+        // (no second 64-bit division on the spec side: seconds and sub-second part are checked by
+        // multiplication only)
+        let secs = t.num_seconds_from_midnight() as u64;
+        let nanos = t.nanosecond() as u64;
+        assert!(secs < 86_400 && nanos < 1_000_000_000);
+        assert!(secs * 1_000_000_000 + nanos == us * 1_000);
+    }
+    kani::cover!(r.is_ok() && us == 86_399_999_999);
+    kani::cover!(r.is_err() && n >= 8 && us == 86_400_000_000);
+    kani::cover!(r.is_err() && n == 7);
+    std::mem::forget(r);
+}
+
+// Contract (C08) — FAILS ON THE UNCHANGED TREE (new finding F5). decode_date on arbitrary bytes: returns
+// (Ok or Err), never panics; Err when fewer than 4 bytes. On the unchanged code
+// `DateTime::UNIX_EPOCH + Duration::days(d)` panics ("`DateTime + TimeDelta` overflowed") for every
+// day count outside chrono's range (|d| beyond about 95.7 million days, e.g. d = i32::MAX); reachable from
+// Variant::try_new (see REPORT for the native reproduction).
+// Stub: alloc::fmt::format.
+// @unit name=decode_date_total props=C08 kind=complete fns=decode_date tier=thorough timeout=900 mem=6
+#[kani::proof]
+#[kani::unwind(6)]
+#[kani::stub(alloc::fmt::format, stub_format)]
+fn decode_date_total() {
+    let (a, n) = any_input::<6>();
+    let r = decode_date(&a[..n]);
+    assert!(n >= 4 || r.is_err());
+    kani::cover!(r.is_ok());
+    kani::cover!(r.is_err());
+    std::mem::forget(r);
+}
+
+// Contract (C08): the 8-byte timestamp decoders on arbitrary bytes: Err when fewer than 8 bytes are present,
+// never a panic for any of the 2^64 values (decode_timestamp_micros/decode_timestampntz_micros may
+// additionally reject values outside chrono's range; the nanosecond forms accept every i64).
+// Stub: alloc::fmt::format.
+// @unit name=variant_decode_timestamps props=C08 kind=complete fns=decode_timestamp_micros,decode_timestampntz_micros,decode_timestamp_nanos,decode_timestampntz_nanos tier=thorough timeout=900 mem=6
+#[kani::proof]
+#[kani::unwind(6)]
+#[kani::stub(alloc::fmt::format, stub_format)]
+fn variant_decode_timestamps() {
+    let (a, n) = any_input::<10>();
+    let which: u8 = kani::any();
+    let ok = match which {
+        0 => {
+            let r = decode_timestamp_micros(&a[..n]);
+            let ok = r.is_ok();
+            std::mem::forget(r);
+            ok
+        }
+        1 => {
+            let r = decode_timestampntz_micros(&a[..n]);
+            let ok = r.is_ok();
+            std::mem::forget(r);
+            ok
+        }
+        2 => {
+            let r = decode_timestamp_nanos(&a[..n]);
+            let ok = r.is_ok();
+            assert!(ok == (n >= 8));
+            std::mem::forget(r);
+            ok
+        }
+        _ => {
+            let r = decode_timestampntz_nanos(&a[..n]);
+            let ok = r.is_ok();
+            assert!(ok == (n >= 8));
+            std::mem::forget(r);
+            ok
+        }
+    };
+    assert!(n >= 8 || !ok);
+    kani::cover!(which == 0 && ok);
+    kani::cover!(which == 0 && !ok && n >= 8);
+    kani::cover!(which == 3 && ok);
+}
